@@ -76,8 +76,10 @@ func (s *Server) RunTcp(host string, port int, idleTimeout time.Duration, onBoun
 		disarm()
 		var t *time.Timer
 		t = time.AfterFunc(d, func() {
+			verifAt("listener.timer", s)
 			mu.Lock()
 			defer mu.Unlock()
+			defer verifAt("listener.timer.done", s)
 			if timer != t {
 				// This timer expired, but it was disarmed (a connection was
 				// registered) or re-armed before this func got the mutex: the
@@ -117,10 +119,12 @@ func (s *Server) RunTcp(host string, port int, idleTimeout time.Duration, onBoun
 		if tc, ok := conn.(*net.TCPConn); ok {
 			_ = tc.SetNoDelay(true)
 		}
+		verifAt("listener.accepted", s, conn)
 		mu.Lock()
 		active++
 		disarm()
 		mu.Unlock()
+		verifAt("listener.counted", s)
 		wg.Add(1)
 		go func(c net.Conn) {
 			defer wg.Done()
@@ -131,6 +135,7 @@ func (s *Server) RunTcp(host string, port int, idleTimeout time.Duration, onBoun
 			if active == 0 && idleTimeout > 0 && !shutdown {
 				arm(idleTimeout)
 			}
+			verifAt("listener.conndone", s)
 			mu.Unlock()
 		}(conn)
 	}
